@@ -6,7 +6,8 @@ LEVEL_NOTE = ("theorems: string layer (normpath never leaves a trailing slash, t
               "resolution does not follow a final symlink, the core moves the link node and frames its target; the "
               "restore half (same link comes back) is checked by C02's pipelines")
 RULE = ("seeded random put worlds biased to symlink arguments: link to file / dir / nothing / absolute target / another "
-        "link / the top directory of another volume, 0-3 trailing slashes, reached through a symlinked parent, link and target on "
+        "link / the top directory of another volume, 0-3 trailing slashes, an entry reached through a cross-volume link followed by "
+        "that link itself in one run, reached through a symlinked parent, link and target on "
         "different volumes; oracle: a link is trashed whenever C07.expected names a usable trash directory, "
         "payload is the same link, target subtree untouched, recorded Path is the link's location with only the parent "
         "resolved (relative to $topdir in volume trash dirs); restore half: trashed links (most of them dangling as seen from "
